@@ -165,17 +165,44 @@ def check_state(P, ctx):
          if ev['t'] == 'write' and ir.top_nocast(ev['lhs'])[0] in ('arrow', 'dot', 'idx', 'un')]
     ok = len(w) == 1 and w[0][1][0] in ('arrow', 'dot') and w[0][1][2] == 'cls' and w[0][2] == ('param', 1)
     ctx.check(ok, rule, 'Type_Scan:memo', site(fn), 'the only store of the scan records the queried class in the matching triple')
+    # type_of evaluated on header memory: a NULL type word (statically declared type object) is replaced by Type and Type is returned;
+    # any other type word is returned as it is and nothing is written; nothing but the type word is ever written
+    from . import cint
     fn = P.fn('Type_Of')
-    g = P.cfg(fn)
-    N = util.Norm(P, fn, expand_locals=True)
-    w = [(n, N.canon(ev['lhs']), N.canon(ev['rhs'])) for n in g.live() if n['expr'] is not None for ev in util.expr_events(n['expr'], n)
-         if ev['t'] == 'write' and ir.top_nocast(ev['lhs'])[0] == 'arrow']
-    ok = len(w) == 1 and w[0][1][2] == 'type' and w[0][2] == ('global', 'Type')
-    if ok:
-        nullc = [x for x in g.live() if x['kind'] == 'cond' and N.canon(x['expr'])[0] == 'bin' and N.canon(x['expr'])[1] == '==' and
-                 util.mentions_field(N.canon(x['expr']), 'type') and ('int', 0) in (N.canon(x['expr'])[2], N.canon(x['expr'])[3])]
-        ok = len(nullc) == 1 and g.must_pass(w[0][0]['id'], through_edges=[(nullc[0]['id'], True)])
-    ctx.check(ok, rule, 'Type_Of:memo', site(fn), 'the only store of type_of replaces a NULL type word (static type object) by Type')
+    ctx.fn(fn)
+    fields = [x[0] for x in P.records['Header']['fields']]
+    HDR = 8 * len(fields)
+    BASE = 100000
+    OBJ = BASE + HDR
+    TYPE_TOK = 8400
+    bad, unsup = None, None
+    for tword in (0, 8500):
+        memory = {}
+        for i, f in enumerate(fields):
+            memory[BASE + 8 * i] = {'type': tword, 'alloc': P.enums.get('AllocStatic', 0), 'magic': P.enums.get('CELLO_MAGIC_NUM', 0xCe110)}[f]
+        writes = []
+
+        def rd(a, it, memory=memory):
+            if a not in memory:
+                raise cint.NoEval('read outside the header')
+            return memory[a]
+
+        def wr(a, v, w, it, memory=memory, writes=writes):
+            writes.append((a - BASE, v))
+            memory[a] = v
+        r = cint.CInt(P, fn, atoms={('global', 'NULL'): 0, ('global', 'Type'): TYPE_TOK}, mem=rd, memw=wr, recurse=True, strict=True).run([OBJ])
+        if r[0] == 'stuck':
+            unsup = unsup or '%s' % (r[1],)
+            continue
+        want_ret = TYPE_TOK if tword == 0 else tword
+        toff = 8 * fields.index('type')
+        want_w = [(toff, TYPE_TOK)] if tword == 0 else []
+        if not (r[0] == 'ret' and r[1] == want_ret and writes == want_w):
+            bad = bad or 'header with type word %s: returns %s, writes %s (offset, value); expected %s and %s' % (tword or 'NULL', r[1] if r[0] == 'ret' else r[0], writes, want_ret, want_w)
+    if unsup and not bad:
+        ctx.undecided(rule, 'Type_Of:memo', site(fn), 'type_of leaves the evaluated fragment: ' + unsup)
+    else:
+        ctx.check(bad is None, rule, 'Type_Of:memo', site(fn), 'the only store of type_of replaces a NULL type word (static type object) by Type', [bad] if bad else None)
     ctx.floor(rule, 18)
 
 
@@ -263,35 +290,104 @@ def check_scan(P, ctx):
     ctx.floor(rule, 1)
 
 
+def eval_type_new(P, cache_num):
+    """Type_New evaluated (cint) for 2..5 constructor arguments: the record it fills is read back triple by triple.  Expected: the cache
+    triples empty; the name and size triples where Type_Builtin_Name / Type_Builtin_Size read them; one triple (NULL, name of the
+    instance's class, instance) per instance argument, in order, from index CELLO_NBUILTINS; an all-NULL triple right behind the last
+    one; nothing else written.  More than CELLO_MAX_INSTANCES instances: OutOfMemoryError before anything is written (checked builds).
+    -> (mismatch, mismatch for the maximum, unsupported)"""
+    from . import cint
+    fn = P.fn('Type_New')
+    nb = P.enums.get('CELLO_NBUILTINS')
+    mx = P.enums.get('CELLO_MAX_INSTANCES')
+    bad, badmax, unsup = None, None, None
+    REC = ('ep', 'trec', 0)
+
+    def run(n):
+        atoms = {('global', 'NULL'): 0}
+
+        def call(nm, e, it):
+            if nm == 'get':
+                k = it.ev(e[2][1])
+                if isinstance(k, tuple) and k[0] == 'stack':
+                    return 7000 + k[2][0]
+                raise cint.NoEval('get with a key that is no Int literal')
+            if nm == 'len':
+                return n
+            if nm == 'c_str':
+                v = it.ev(e[2][0])
+                return ('name-of', v)
+            if nm == 'c_int':
+                return 40
+            if nm == 'type_of':
+                return ('class-of', it.ev(e[2][0]))
+            raise cint.NoEval('call %s' % nm)
+        it = cint.CInt(P, fn, atoms=atoms, call=call, recurse=True, strict=True, max_steps=4000)
+        it.atoms = atoms
+        return it.run([REC, 9100]), atoms
+    for n in (2, 3, 4, 5):
+        r, atoms = run(n)
+        if r[0] == 'stuck':
+            unsup = unsup or '%d arguments: %s' % (n, r[1])
+            continue
+        if r[0] != 'ret':
+            bad = bad or '%d arguments: does not return' % n
+            continue
+        rec = {}
+        for k_, v in atoms.items():
+            if k_[0] == 'elem' and k_[1] == 'trec':
+                rec.setdefault(k_[2], {})[k_[3]] = v
+        ce = cache_num // 3
+        want = {}
+        for i in range(ce):
+            want[i] = (0, 0, 0)
+        # where the accessors read name and size
+        names = {}
+        for f, val in (('Type_Builtin_Name', ('name-of', 7000)), ('Type_Builtin_Size', 40)):
+            ab = util.accessor_body(P, f)
+            idx = None
+            if ab is not None:
+                e = ir.canon(ab[1])
+                if e[0] == 'dot' and e[1][0] == 'idx':
+                    idx = loops_ev(e[1][2])
+            if idx is None:
+                return None, None, 'accessor %s not evaluable' % f
+            names[idx] = val
+        for idx, val in names.items():
+            want[idx] = (0, 'lit', val)
+        for k in range(n - 2):
+            want[nb + k] = (0, ('name-of', ('class-of', 7002 + k)), 7002 + k)
+        want[nb + n - 2] = (0, 0, 0)
+        got = {i: (t.get('cls'), ('lit' if isinstance(t.get('name'), tuple) and t.get('name')[0] == 'str' else t.get('name')), t.get('inst')) for i, t in rec.items()}
+        if got != want:
+            diff = sorted(set(got) ^ set(want)) or [i for i in sorted(want) if got.get(i) != want[i]]
+            i = diff[0]
+            bad = bad or '%d constructor arguments (%d instances): triple %d of the record is %s, expected %s' % (n, n - 2, i, got.get(i, 'not written'), want.get(i, 'not written'))
+    if mx is not None and 'ndebug' not in P.config:
+        r, atoms = run(mx + 3)
+        if r[0] == 'stuck' and 'step bound' not in str(r[1]):
+            unsup = unsup or 'too many instances: %s' % (r[1],)
+        elif not (r[0] == 'term' and r[1] == ('throw', 'OutOfMemoryError')) or any(k_[0] == 'elem' and k_[1] == 'trec' for k_ in atoms):
+            badmax = 'with %d instances (maximum %d): %s' % (mx + 1, mx, 'the record is written before the refusal' if r[0] == 'term' else 'no OutOfMemoryError')
+    return bad, badmax, unsup
+
+
 def check_type_new_all_instances(P, ctx):
-    """a run-time type records every instance it was given: the copy loop of Type_New visits the arguments 2..len(args)-1 in steps
-    of one (header evaluated for 2..6 arguments), so no declared class is silently dropped"""
-    from . import loops
+    """a run-time type records every instance it was given (evaluated: eval_type_new)"""
     rule = 'C08.runtime-type-complete'
     fn = P.fn('Type_New')
-    g = P.cfg(fn)
     ctx.fn(fn)
-    lenc = ir.canon(('call', ('func', 'len'), (('param', 'args', 1),)))
-    conds = [n for n in g.live() if n['kind'] == 'cond' and loops.counted_loop(g, None, n) is not None and
-             any(x == lenc for x in ir.walk(ir.canon(n['expr'])))]
-    bad = None
-    if len(conds) != 1:
-        bad = 'expected one loop over the instance arguments, found %d' % len(conds)
+    hw = len(P.records['Header']['fields'])
+    wt = P.types.get('WObj')
+    cache_num = (wt['header'].index(('str', '__Name')) - 1 - hw) if wt and ('str', '__Name') in wt['header'] else None
+    if cache_num is None:
+        ctx.undecided(rule, 'Type_New', site(fn), 'cannot locate the cache words of a static object')
     else:
-        lp = loops.counted_loop(g, None, conds[0])
-        N = util.Norm(P, fn, inline=False)
-        try:
-            lenx = [x for x in ir.walk(lp['cond']) if x[0] == 'call' and ir.callee_name(x) == 'len'][0]
-            for n in range(2, 7):
-                got = loops.iterate(lp, {lenx: n})
-                if got != list(range(2, n)):
-                    bad = 'with %d constructor arguments the loop copies arguments %s, the instances are arguments %s' % (n, got, list(range(2, n)))
-                    break
-            if bad is None and not loops.step_on_every_iteration(g, lp):
-                bad = 'an iteration can reach the loop test again without the step'
-        except loops.NoEval as e:
-            bad = 'loop header not evaluable: %s' % e
-    ctx.check(bad is None, rule, 'Type_New', site(fn), 'Type_New copies every instance argument into the type record', [bad] if bad else None)
+        bad, badmax, unsup = eval_type_new(P, cache_num)
+        if unsup and not bad:
+            ctx.undecided(rule, 'Type_New', site(fn), 'Type_New leaves the evaluated fragment: ' + unsup)
+        else:
+            ctx.check(bad is None, rule, 'Type_New', site(fn), 'Type_New copies every instance argument into the type record (2..5 constructor arguments evaluated)', [bad] if bad else None)
     ctx.floor(rule, 1)
 
 
@@ -319,38 +415,16 @@ def check_layout(P, ctx, cache_num):
             e = ir.canon(ab[1])
             ok = e[0] == 'dot' and e[2] == 'inst' and e[1][0] == 'idx' and e[1][1] == ('param', 0) and loops_ev(e[1][2]) == cache_num // 3 + off
         ctx.check(ok, rule, f, site(P.fn(f)), 'reads the inst word of triple CACHE_NUM/3 + %d' % off)
-    # run-time types
-    fn = P.fn('Type_New')
-    g = P.cfg(fn)
-    ctx.fn(fn)
-    N = util.Norm(P, fn, expand_locals=True, keep={'len', 'get', 'c_str', 'c_int', 'type_of'})
-    stores = []
-    for n in g.live():
-        if n['expr'] is None:
-            continue
-        for ev in util.expr_events(n['expr'], n):
-            if ev['t'] == 'write':
-                l = N.canon(ev['lhs'])
-                if l[0] == 'idx' and l[1] == ('param', 0):
-                    stores.append((n, l[2], ir.top_nocast(ev['rhs'])))
+    # run-time types (evaluated: eval_type_new)
     from . import poly as _p
-    lenargs = 'len(arg1)'
-    want_term = _p.Poly.const(nb) + _p.Poly.atom(lenargs) - _p.Poly.const(2)
-    got = {}
-    for n, idx, rhs in stores:
-        try:
-            pidx = _p.from_expr(idx)
-        except Exception:
-            continue
-        lits = [ir.top_nocast(x) for x in rhs[2][1]] if rhs[0] == 'compound' and rhs[2] is not None else []
-        kind = 'name' if ('str', '__Name') in lits else 'size' if ('str', '__Size') in lits else 'null' if lits and all(ir.is_null(x) for x in lits) else 'inst'
-        got.setdefault(kind, []).append(pidx)
-    ce = _p.Poly.const(cache_num // 3)
-    got = {k: [x.subst({'CELLO_NBUILTINS': _p.Poly.const(nb)}) for x in v] for k, v in got.items()}
-    ok = got.get('name') == [ce] and got.get('size') == [ce + _p.Poly.const(1)] and want_term in got.get('null', []) and \
-        got.get('inst') == [_p.Poly.const(nb - 2) + _p.Poly.atom('i')]
-    ctx.check(ok, rule, 'Type_New', site(fn), 'a run-time type record gets its name/size triples at the indices the accessors read, its instances from index CELLO_NBUILTINS on, and the terminating NULL triple right after the last instance',
-              ['stores: %s' % {k: [repr(x) for x in v] for k, v in got.items()}])
+    fn = P.fn('Type_New')
+    ctx.fn(fn)
+    tbad, tbadmax, tunsup = eval_type_new(P, cache_num)
+    if tunsup and not tbad:
+        ctx.undecided(rule, 'Type_New', site(fn), 'Type_New leaves the evaluated fragment: ' + tunsup)
+    else:
+        ctx.check(tbad is None, rule, 'Type_New', site(fn), 'a run-time type record gets its name/size triples at the indices the accessors read, its instances from index CELLO_NBUILTINS on, and the terminating NULL triple right after the last instance',
+                  [tbad] if tbad else None)
     fn = P.fn('Type_Alloc')
     g = P.cfg(fn)
     N = util.Norm(P, fn)
@@ -362,12 +436,11 @@ def check_layout(P, ctx, cache_num):
         ok = total == _p.Poly.atom('H') + _p.Poly.const(24 * (nb + mx + 1))
     ctx.check(ok, rule, 'Type_Alloc', site(fn), 'the block of a run-time type holds the header and NBUILTINS + MAX_INSTANCES + 1 triples (room for the terminator at the maximum instance count)')
     fn = P.fn('Type_New')
-    g = P.cfg(fn)
-    thr = [n for n in g.live() if n['kind'] == 'term' and n['why'][0] == 'throw']
-    conds = [n for n in g.live() if n['kind'] == 'cond' and any(x == ('enum', 'CELLO_MAX_INSTANCES') for x in ir.walk(n['expr']))]
-    ok = len(conds) == 1 and thr and all(g.must_pass(n['id'], through_edges=[(conds[0]['id'], False)]) for (n, i_, r_) in stores)
     if 'ndebug' not in ctx.config:
-        ctx.check(ok, rule, 'Type_New:max', site(fn), 'more than CELLO_MAX_INSTANCES instances are refused before anything is written')
+        if tunsup and not tbadmax:
+            ctx.undecided(rule, 'Type_New:max', site(fn), 'Type_New leaves the evaluated fragment: ' + tunsup)
+        else:
+            ctx.check(tbadmax is None, rule, 'Type_New:max', site(fn), 'more than CELLO_MAX_INSTANCES instances are refused before anything is written', [tbadmax] if tbadmax else None)
     ctx.floor(rule, 5)
 
 
